@@ -50,6 +50,19 @@ Theorem C04_mchecker_eq_checker : forall H : history, mcheck H = check H.
 Proof. exact mcheck_eq_check. Qed.
 Print Assumptions C04_mchecker_eq_checker.
 
+(* (3c) the steps by which the check shrinks a rejected history preserve linearizability, so a rejected shrunk
+        history proves the recorded one non-linearizable: removal of an operation that cannot have changed the
+        state (a completed one whose reply implies it, or an unanswered read) and the event prefix at a time T *)
+From ZV Require Import Lin.Locality Lin.Shrink Lin.ShrinkProofs.
+
+Theorem C04_shrink_drop : forall H1 x H2, removable x -> linearizable (H1 ++ x :: H2) -> linearizable (H1 ++ H2).
+Proof. exact shrink_drop. Qed.
+Print Assumptions C04_shrink_drop.
+
+Theorem C04_shrink_prefix : forall T H, Forall wf_op H -> linearizable H -> linearizable (cut T H).
+Proof. exact shrink_prefix. Qed.
+Print Assumptions C04_shrink_prefix.
+
 (* ---------- non-vacuity ---------- *)
 Open Scope N_scope.
 (* two overlapping INCRs and a later GET: linearizable (and the checker says so) *)
